@@ -1,8 +1,18 @@
 package abi
 
 import (
+	pb "github.com/google/go-tdx-guest/proto/tdx"
 	vp "github.com/google/go-tdx-guest/zzvp"
+	"github.com/google/go-tdx-guest/zzvp/q"
 )
+
+// The offsets below are this harness's own table of the TDX v4 quote layout
+// (Intel TDX DCAP quote format, version 4); nothing is taken from package abi.
+
+func u16at(b []byte, o int) int { return int(b[o]) | int(b[o+1])<<8 }
+func u32at(b []byte, o int) int {
+	return int(b[o]) | int(b[o+1])<<8 | int(b[o+2])<<16 | int(b[o+3])<<24
+}
 
 // H09a: for every byte string the parser accepts, serialising the parsed
 // quote reproduces the input byte for byte.
@@ -26,4 +36,230 @@ func H09a_ParseThenSerialise() {
 	vp.Assume(i < len(out))
 	vp.ForkReads(true)
 	vp.Assert("same-byte", out[i] == b[i])
+}
+
+// sameAt: field equals b[off:off+n] (compared at a symbolic position).
+func sameAt(label string, field, b []byte, off, n int) {
+	vp.Assert(label+"-len", len(field) == n)
+	j := vp.IntRange("j_"+label, 0, 1<<20)
+	vp.Assume(j < n)
+	vp.Assume(j < len(field))
+	vp.Assert(label, field[j] == b[off+j])
+}
+
+// H09b: the parser accepts exactly the byte strings that follow the v4
+// layout, and every field of the result is the corresponding slice of the input.
+func H09b_AcceptIffLayout_FieldsAreSlices() {
+	L := vp.IntRange("L", 0, 1<<20)
+	b := vp.Bytes("b", L)
+	res, err := QuoteToProto(b)
+	if L < 1226 {
+		// shorter than the fixed parts of a v4 quote
+		vp.Assert("too-short-rejected", err != nil)
+		return
+	}
+	S := u32at(b, 632)
+	A := u16at(b, 1218)
+	wf := vp.And(
+		u16at(b, 0) == 4, u16at(b, 2) == 2, u32at(b, 4) == 0x81,
+		S <= L-636, S >= 590,
+		u16at(b, 764) == 6, u32at(b, 766) == S-134,
+		590+A <= S,
+	)
+	if !wf {
+		vp.Assert("malformed-rejected", err != nil)
+		return
+	}
+	C := S - 590 - A
+	wf2 := vp.And(u16at(b, 1220+A) == 5, u32at(b, 1222+A) == C)
+	vp.Reach("well-formed", wf2)
+	vp.Assert("accept-iff-layout", (err == nil) == wf2)
+	if err != nil {
+		return
+	}
+	quote := res.(*pb.QuoteV4)
+	h, body, sd := quote.Header, quote.TdQuoteBody, quote.SignedData
+	vp.Assert("header-ints", vp.And(h.Version == 4, h.AttestationKeyType == 2, h.TeeType == 0x81))
+	sameAt("pcesvn", h.PceSvn, b, 8, 2)
+	sameAt("qesvn", h.QeSvn, b, 10, 2)
+	sameAt("qevendor", h.QeVendorId, b, 12, 16)
+	sameAt("userdata", h.UserData, b, 28, 20)
+	sameAt("teetcbsvn", body.TeeTcbSvn, b, 48, 16)
+	sameAt("mrseam", body.MrSeam, b, 64, 48)
+	sameAt("mrsignerseam", body.MrSignerSeam, b, 112, 48)
+	sameAt("seamattr", body.SeamAttributes, b, 160, 8)
+	sameAt("tdattr", body.TdAttributes, b, 168, 8)
+	sameAt("xfam", body.Xfam, b, 176, 8)
+	sameAt("mrtd", body.MrTd, b, 184, 48)
+	sameAt("mrconfigid", body.MrConfigId, b, 232, 48)
+	sameAt("mrowner", body.MrOwner, b, 280, 48)
+	sameAt("mrownerconfig", body.MrOwnerConfig, b, 328, 48)
+	vp.Assert("four-rtmrs", len(body.Rtmrs) == 4)
+	if len(body.Rtmrs) == 4 {
+		sameAt("rtmr0", body.Rtmrs[0], b, 376, 48)
+		sameAt("rtmr1", body.Rtmrs[1], b, 424, 48)
+		sameAt("rtmr2", body.Rtmrs[2], b, 472, 48)
+		sameAt("rtmr3", body.Rtmrs[3], b, 520, 48)
+	}
+	sameAt("reportdata", body.ReportData, b, 568, 64)
+	vp.Assert("signed-data-size", int(quote.SignedDataSize) == S)
+	sameAt("signature", sd.Signature, b, 636, 64)
+	sameAt("attkey", sd.EcdsaAttestationKey, b, 700, 64)
+	cd := sd.CertificationData
+	vp.Assert("cert-data-ints", vp.And(cd.CertificateDataType == 6, int(cd.Size) == S-134))
+	qr := cd.QeReportCertificationData
+	r := qr.QeReport
+	sameAt("qe-cpusvn", r.CpuSvn, b, 770, 16)
+	vp.Assert("qe-miscselect", int(r.MiscSelect) == u32at(b, 786))
+	sameAt("qe-res1", r.Reserved1, b, 790, 28)
+	sameAt("qe-attributes", r.Attributes, b, 818, 16)
+	sameAt("qe-mrenclave", r.MrEnclave, b, 834, 32)
+	sameAt("qe-res2", r.Reserved2, b, 866, 32)
+	sameAt("qe-mrsigner", r.MrSigner, b, 898, 32)
+	sameAt("qe-res3", r.Reserved3, b, 930, 96)
+	vp.Assert("qe-isv", vp.And(int(r.IsvProdId) == u16at(b, 1026), int(r.IsvSvn) == u16at(b, 1028)))
+	sameAt("qe-res4", r.Reserved4, b, 1030, 60)
+	sameAt("qe-reportdata", r.ReportData, b, 1090, 64)
+	sameAt("qe-signature", qr.QeReportSignature, b, 1154, 64)
+	vp.Assert("auth-size", int(qr.QeAuthData.ParsedDataSize) == A)
+	sameAt("auth-data", qr.QeAuthData.Data, b, 1220, A)
+	pc := qr.PckCertificateChainData
+	vp.Assert("pck-ints", vp.And(pc.CertificateDataType == 5, int(pc.Size) == C))
+	sameAt("pck-chain", pc.PckCertChain, b, 1226+A, C)
+	E := L - 636 - S
+	if E == 0 {
+		vp.Assert("no-extra", len(quote.ExtraBytes) == 0)
+	} else {
+		sameAt("extra", quote.ExtraBytes, b, 636+S, E)
+	}
+}
+
+func sameField(label string, x, y []byte) {
+	vp.Assert(label+"-len", len(x) == len(y))
+	j := vp.IntRange("j_"+label, 0, 1<<20)
+	vp.Assume(j < len(x))
+	vp.Assume(j < len(y))
+	vp.Assert(label, x[j] == y[j])
+}
+
+// H09c: every well-formed message survives serialise-then-parse unchanged.
+func H09c_SerialiseThenParse() {
+	A := vp.IntRange("A", 0, 65535)
+	C := vp.IntRange("C", 0, 1<<19)
+	var extra []byte
+	if vp.Choose("hasExtra", 2) == 1 {
+		extra = vp.Bytes("extra", vp.IntRange("E", 1, 1<<18))
+	}
+	m := q.Valid("m_", q.Shape{AuthLen: A, Chain: vp.Bytes("chain", C), Extra: extra})
+	// the size fields of a well-formed message agree with the actual lengths
+	m.SignedDataSize = uint32(590 + A + C)
+	m.SignedData.CertificationData.Size = uint32(590 + A + C - 134)
+	raw, err := QuoteToAbiBytes(m)
+	vp.Assert("serialises", err == nil)
+	if err != nil {
+		return
+	}
+	vp.Assert("length", len(raw) == 636+590+A+C+len(extra))
+	vp.ForkReads(true)
+	res, err := QuoteToProto(raw)
+	vp.Assert("parses-back", err == nil)
+	if err != nil {
+		return
+	}
+	p := res.(*pb.QuoteV4)
+	vp.Assert("ints", vp.And(p.Header.Version == 4, p.Header.AttestationKeyType == 2, p.Header.TeeType == 0x81,
+		p.SignedDataSize == m.SignedDataSize,
+		p.SignedData.CertificationData.CertificateDataType == 6, p.SignedData.CertificationData.Size == m.SignedData.CertificationData.Size))
+	sameField("pcesvn", p.Header.PceSvn, m.Header.PceSvn)
+	sameField("qesvn", p.Header.QeSvn, m.Header.QeSvn)
+	sameField("qevendor", p.Header.QeVendorId, m.Header.QeVendorId)
+	sameField("userdata", p.Header.UserData, m.Header.UserData)
+	pbdy, mbdy := p.TdQuoteBody, m.TdQuoteBody
+	sameField("teetcbsvn", pbdy.TeeTcbSvn, mbdy.TeeTcbSvn)
+	sameField("mrseam", pbdy.MrSeam, mbdy.MrSeam)
+	sameField("mrsignerseam", pbdy.MrSignerSeam, mbdy.MrSignerSeam)
+	sameField("seamattr", pbdy.SeamAttributes, mbdy.SeamAttributes)
+	sameField("tdattr", pbdy.TdAttributes, mbdy.TdAttributes)
+	sameField("xfam", pbdy.Xfam, mbdy.Xfam)
+	sameField("mrtd", pbdy.MrTd, mbdy.MrTd)
+	sameField("mrconfigid", pbdy.MrConfigId, mbdy.MrConfigId)
+	sameField("mrowner", pbdy.MrOwner, mbdy.MrOwner)
+	sameField("mrownerconfig", pbdy.MrOwnerConfig, mbdy.MrOwnerConfig)
+	vp.Assert("rtmr-count", len(pbdy.Rtmrs) == 4)
+	for i := 0; i < 4 && i < len(pbdy.Rtmrs); i++ {
+		sameField("rtmr"+string(rune('0'+i)), pbdy.Rtmrs[i], mbdy.Rtmrs[i])
+	}
+	sameField("reportdata", pbdy.ReportData, mbdy.ReportData)
+	sameField("signature", p.SignedData.Signature, m.SignedData.Signature)
+	sameField("attkey", p.SignedData.EcdsaAttestationKey, m.SignedData.EcdsaAttestationKey)
+	pq, mq := p.SignedData.CertificationData.QeReportCertificationData, m.SignedData.CertificationData.QeReportCertificationData
+	sameField("qe-cpusvn", pq.QeReport.CpuSvn, mq.QeReport.CpuSvn)
+	vp.Assert("qe-ints", vp.And(pq.QeReport.MiscSelect == mq.QeReport.MiscSelect, pq.QeReport.IsvProdId == mq.QeReport.IsvProdId, pq.QeReport.IsvSvn == mq.QeReport.IsvSvn))
+	sameField("qe-res1", pq.QeReport.Reserved1, mq.QeReport.Reserved1)
+	sameField("qe-attributes", pq.QeReport.Attributes, mq.QeReport.Attributes)
+	sameField("qe-mrenclave", pq.QeReport.MrEnclave, mq.QeReport.MrEnclave)
+	sameField("qe-res2", pq.QeReport.Reserved2, mq.QeReport.Reserved2)
+	sameField("qe-mrsigner", pq.QeReport.MrSigner, mq.QeReport.MrSigner)
+	sameField("qe-res3", pq.QeReport.Reserved3, mq.QeReport.Reserved3)
+	sameField("qe-res4", pq.QeReport.Reserved4, mq.QeReport.Reserved4)
+	sameField("qe-reportdata", pq.QeReport.ReportData, mq.QeReport.ReportData)
+	sameField("qe-signature", pq.QeReportSignature, mq.QeReportSignature)
+	vp.Assert("auth-size", pq.QeAuthData.ParsedDataSize == mq.QeAuthData.ParsedDataSize)
+	sameField("auth-data", pq.QeAuthData.Data, mq.QeAuthData.Data)
+	vp.Assert("pck-ints", vp.And(pq.PckCertificateChainData.CertificateDataType == 5, pq.PckCertificateChainData.Size == mq.PckCertificateChainData.Size))
+	sameField("pck-chain", pq.PckCertificateChainData.PckCertChain, mq.PckCertificateChainData.PckCertChain)
+	if extra == nil {
+		vp.Assert("no-extra", len(p.ExtraBytes) == 0)
+	} else {
+		sameField("extra", p.ExtraBytes, extra)
+	}
+}
+
+// H09d: the exported partial serialisers place every field at its layout offset.
+func H09d_PartialSerialisers() {
+	m := q.Valid("m_", q.Shape{AuthLen: 0, Chain: vp.Bytes("chain", 0)})
+	hb, err := HeaderToAbiBytes(m.Header)
+	vp.Assert("header-ok", vp.And(err == nil, len(hb) == 48))
+	if err == nil && len(hb) == 48 {
+		vp.Assert("header-ints", vp.And(u16at(hb, 0) == 4, u16at(hb, 2) == 2, u32at(hb, 4) == 0x81))
+		sameAt("h-pcesvn", m.Header.PceSvn, hb, 8, 2)
+		sameAt("h-qesvn", m.Header.QeSvn, hb, 10, 2)
+		sameAt("h-qevendor", m.Header.QeVendorId, hb, 12, 16)
+		sameAt("h-userdata", m.Header.UserData, hb, 28, 20)
+	}
+	bb, err := TdQuoteBodyToAbiBytes(m.TdQuoteBody)
+	vp.Assert("body-ok", vp.And(err == nil, len(bb) == 584))
+	if err == nil && len(bb) == 584 {
+		t := m.TdQuoteBody
+		sameAt("b-teetcbsvn", t.TeeTcbSvn, bb, 0, 16)
+		sameAt("b-mrseam", t.MrSeam, bb, 16, 48)
+		sameAt("b-mrsignerseam", t.MrSignerSeam, bb, 64, 48)
+		sameAt("b-seamattr", t.SeamAttributes, bb, 112, 8)
+		sameAt("b-tdattr", t.TdAttributes, bb, 120, 8)
+		sameAt("b-xfam", t.Xfam, bb, 128, 8)
+		sameAt("b-mrtd", t.MrTd, bb, 136, 48)
+		sameAt("b-mrconfigid", t.MrConfigId, bb, 184, 48)
+		sameAt("b-mrowner", t.MrOwner, bb, 232, 48)
+		sameAt("b-mrownerconfig", t.MrOwnerConfig, bb, 280, 48)
+		sameAt("b-rtmr0", t.Rtmrs[0], bb, 328, 48)
+		sameAt("b-rtmr1", t.Rtmrs[1], bb, 376, 48)
+		sameAt("b-rtmr2", t.Rtmrs[2], bb, 424, 48)
+		sameAt("b-rtmr3", t.Rtmrs[3], bb, 472, 48)
+		sameAt("b-reportdata", t.ReportData, bb, 520, 64)
+	}
+	r := m.SignedData.CertificationData.QeReportCertificationData.QeReport
+	rb, err := EnclaveReportToAbiBytes(r)
+	vp.Assert("report-ok", vp.And(err == nil, len(rb) == 384))
+	if err == nil && len(rb) == 384 {
+		sameAt("r-cpusvn", r.CpuSvn, rb, 0, 16)
+		vp.Assert("r-ints", vp.And(u32at(rb, 16) == int(r.MiscSelect), u16at(rb, 256) == int(r.IsvProdId), u16at(rb, 258) == int(r.IsvSvn)))
+		sameAt("r-res1", r.Reserved1, rb, 20, 28)
+		sameAt("r-attributes", r.Attributes, rb, 48, 16)
+		sameAt("r-mrenclave", r.MrEnclave, rb, 64, 32)
+		sameAt("r-res2", r.Reserved2, rb, 96, 32)
+		sameAt("r-mrsigner", r.MrSigner, rb, 128, 32)
+		sameAt("r-res3", r.Reserved3, rb, 160, 96)
+		sameAt("r-res4", r.Reserved4, rb, 260, 60)
+		sameAt("r-reportdata", r.ReportData, rb, 320, 64)
+	}
 }
